@@ -666,7 +666,10 @@ def evalVarDefinition (fuel : Nat) (ctx : Ctx) : PM Stmt := do
   let mkVar (t : Tok) : Option Var :=
     match ctx.findVar t.val pfx global with
     | some v => if specified.dt != .unknown && !(specified.equals v.vt) then none
-                else some ⟨if global then prefixed pfx t.val else t.val, specified, global, isPublic t.val⟩
+                else some ⟨if global then prefixed pfx t.val else t.val,
+                           -- a name that exists on the same level is assigned to: it keeps its type
+                           if v.global == global && specified.dt == .unknown then v.vt else specified,
+                           global, isPublic t.val⟩
     | none => some ⟨if global then prefixed pfx t.val else t.val, specified, global, isPublic t.val⟩
   let vars ← ofOpt (names.mapM mkVar)
   if next.ty != TT_NEWLINE && next.ty != TT_EOF then do
@@ -1220,7 +1223,7 @@ def registerImported (ctx : Ctx) (stmts : List Stmt) : Ctx × List Stmt :=
     | .varDef vars _ =>
       let (ctx, ex) := vars.foldl (fun (a : Ctx × Bool) v =>
         let e := (assocGet a.1.vars v.name).isSome
-        (if !e && v.pub then { a.1 with vars := assocSet a.1.vars v.name v } else a.1, e)) (ctx, false)
+        (if !e && v.pub then { a.1 with vars := assocSet a.1.vars v.name v } else a.1, a.2 && e)) (ctx, true)
       (ctx, if ex then out else out ++ [st])
     | .funcDef name pub rets params _ =>
       let e := (assocGet ctx.funcs name).isSome
